@@ -5,7 +5,7 @@ import json, os, sys
 V = os.path.dirname(os.path.dirname(os.path.abspath(__file__)))
 sys.path.insert(0, V)
 from acverif.core import extract
-from acverif.mir import Facts, param_roles
+from acverif.mir import Facts, param_roles, caller_arg_roles
 f = Facts(extract())
 refp = json.load(open(os.path.join(V, 'rules', 'vocab_params.json')))
 out = {}
@@ -16,6 +16,9 @@ for p, b in f.bodies.items():
     tys = [ty for nm, ty in r]
     if len(set(tys)) == len(tys):
         continue
-    out[p] = param_roles(b)
+    rl = [set(x) for x in param_roles(b)]
+    for i, x in enumerate(caller_arg_roles(f, p, len(r))):
+        rl[i] |= x
+    out[p] = [sorted(x) for x in rl]
 json.dump(out, open(os.path.join(V, 'rules', 'vocab_roles.json'), 'w'), indent=0, sort_keys=True)
 print(len(out), 'functions')
